@@ -164,6 +164,12 @@ def run(chk):
     gw = repo.func("OverlapWindowPlugin._get_window_size", OVERLAP)
     conv = [c for c in calls_in(gw.node) if call_name(c) in ("float", "np.float64", "np.float32")] + [x for x in walk_body(gw.node) if isinstance(x, ast.BinOp) and isinstance(x.op, ast.Div)]
     chk.check(not conv, "C09.R3", gw, stmt_of(conv[0]) if conv else None, "the declared window is converted to floating point: `end - 2 * window - 1` is then evaluated in float64, which at realistic timestamps (~1e18 ns) is only exact to 256 ns - the limits can land beyond the chunk end", site_text="_get_window_size: window handed out as declared (no float conversion)")
+    for r_ in [st for st in walk_body(gw.node) if isinstance(st, ast.Return) and isinstance(st.value, ast.Tuple) and len(st.value.elts) == 2]:
+        a, b = st_a, st_b = r_.value.elts
+        ia = [x.slice.value for x in ast.walk(a) if isinstance(x, ast.Subscript) and isinstance(x.slice, ast.Constant)]
+        ib = [x.slice.value for x in ast.walk(b) if isinstance(x, ast.Subscript) and isinstance(x.slice, ast.Constant)]
+        okw = (not ia and not ib and norm(a) == norm(b)) or (ia == [0] and ib == [1])
+        chk.check(okw, "C09.R3", gw, r_, f"`{norm(r_)}` does not hand out (look-back, look-ahead) = (declared[0], declared[1]) (or the scalar twice): one side of an asymmetric window is replaced by the other", site_text="_get_window_size: returns (w[0], w[1]) or (w, w)", site={"function": gw.qualname, "rule": "window components"})
     cbc = [c for c in calls_in(dc.node) if call_name(c) == "self.cache_beyond" and len(c.args) == 3 and norm(c.args[2]) == "self.cached_input"]
     chk.check(len(cbc) == 1, "C09.R3", dc, None, "input cache refresh not found", site_text="do_compute: cache_beyond(kwargs, limit, self.cached_input)")
     if len(cbc) == 1:
@@ -240,6 +246,8 @@ WITNESSES = [
       "self.cache_beyond(kwargs, cache_inputs_beyond, self.cached_input)\n        return result", "return result"),
     W("new input before cached input", "C09.R3", OVERLAP,
       "[self.cached_input[data_kind], chunk], self.allow_superrun", "[chunk, self.cached_input[data_kind]], self.allow_superrun"),
+    W("scalar window handed out as (w, 0)", "C09.R3", OVERLAP,
+      "return window_size, window_size\n        elif", "return window_size, 0\n        elif"),
     W("window converted to float", "C09.R3", OVERLAP,
       "return window_size, window_size\n        elif", "return float(window_size), float(window_size)\n        elif"),
     W("input cache starts after sent_until", "C09.R3", OVERLAP,
